@@ -229,7 +229,8 @@ def _canon_value(vr, v):
     return v
 
 
-def elem_diff(a, b, path='', skip=()):
+def elem_diff(a, b, path='', skip=(), loose=False):
+    """`loose`: values of identifiers and dates / times are not compared (two constructions from the same arguments)"""
     ta, tb = sorted(a.keys()), sorted(b.keys())
     ta = [t for t in ta if int(t) not in skip]
     tb = [t for t in tb if int(t) not in skip]
@@ -238,6 +239,8 @@ def elem_diff(a, b, path='', skip=()):
                 f'only-in-file={[str(t) for t in tb if t not in ta][:5]}')
     for t in ta:
         ea, eb = a[t], b[t]
+        if loose and ea.VR != eb.VR and (ea.VR in eb.VR.split(' or ') or eb.VR in ea.VR.split(' or ')):
+            continue        # one of the two was written meanwhile: pydicom's writer resolved its ambiguous VR in place
         if ea.VR != eb.VR and not ({ea.VR, eb.VR} <= {'OB', 'OW', 'OB or OW'}) and not ({ea.VR, eb.VR} <= {'US', 'SS', 'US or SS'}):
             return f'{path}/{t} {ea.keyword}: VR {ea.VR} vs {eb.VR}'
         if ea.VR == 'SQ':
@@ -245,9 +248,11 @@ def elem_diff(a, b, path='', skip=()):
             if len(sa) != len(sb):
                 return f'{path}/{t} {ea.keyword}: sequence length {len(sa)} vs {len(sb)}'
             for i, (x, y) in enumerate(zip(sa, sb)):
-                d = elem_diff(x, y, f'{path}/{ea.keyword}[{i}]')
+                d = elem_diff(x, y, f'{path}/{ea.keyword}[{i}]', loose=loose)
                 if d:
                     return d
+        elif loose and ea.VR in ('UI', 'DA', 'TM', 'DT'):
+            continue
         else:
             try:
                 va, vb = _canon_value(ea.VR, ea.value), _canon_value(eb.VR, eb.value)
@@ -672,6 +677,57 @@ def carried_file_clause(part):
     return None
 
 
+def alias_equal_parts(inputs, limit=400):
+    """Generator dimension `shared parts`: wherever two mutable parts of the arguments are deep-equal (two CodedConcepts of the
+    same code, the same algorithm identification in two segment descriptions, two equal arrays, the same item in two lists),
+    make them the SAME object - a change of values nowhere, so nothing a constructor may refuse, but a write through one
+    reference now shows through the other.  Returns the number of places re-pointed."""
+    from pydicom.dataset import Dataset
+    seen = {}
+    count = [0]
+    budget = [limit]
+
+    def visit(container, key, x, depth):
+        if depth > 8 or budget[0] <= 0:
+            return
+        small_ds = isinstance(x, Dataset) and 0 < len(x) <= 40 and 'PixelData' not in x
+        small_arr = isinstance(x, np.ndarray) and 0 < x.size <= 4096
+        if small_ds or small_arr:
+            budget[0] -= 1
+            try:
+                key_ = (type(x).__qualname__, snap(x))
+                hash(key_)
+            except TypeError:
+                key_ = None
+            if key_ is not None:
+                first = seen.get(key_)
+                if first is not None and first is not x:
+                    try:
+                        container[key] = first
+                        count[0] += 1
+                        return
+                    except Exception:  # noqa: BLE001  (tuple, read-only container)
+                        pass
+                else:
+                    seen[key_] = x
+        if isinstance(x, Dataset):
+            if 'PixelData' in x:
+                return
+            for e in x:
+                if e.VR == 'SQ' and e.value is not None:
+                    for i, it in enumerate(list(e.value)):
+                        visit(e.value, i, it, depth + 1)
+        elif isinstance(x, list) or type(x).__name__ == 'Sequence':
+            for i, it in enumerate(list(x)):
+                visit(x, i, it, depth + 1)
+        elif isinstance(x, tuple):
+            for it in x:
+                visit(None, None, it, depth + 1) if isinstance(it, (list, Dataset)) else None
+    for k in list(inputs):
+        visit(inputs, k, inputs[k], 0)
+    return count[0]
+
+
 def _subject(ctx, idx):
     """case idx -> subject dict (pure function of seed, idx)"""
     from gen import objects
@@ -684,6 +740,12 @@ def _subject(ctx, idx):
     for form in s['container_forms'].values():
         ctx.hist('container_form', form)
     s['given_uids'] = set(objects.GIVEN_UIDS)
+    if ctx.rng('shared-parts', idx).random() < 0.4:
+        n = alias_equal_parts(s['inputs'])
+        ctx.hist('shared_parts', 'none found' if n == 0 else ('1' if n == 1 else ('2-5' if n <= 5 else '>5')))
+        s['variant'] = tuple(s['variant']) + (('shared', min(n, 3)),) if isinstance(s['variant'], tuple) else s['variant']
+    else:
+        ctx.hist('shared_parts', 'off')
     return s
 
 
@@ -773,6 +835,9 @@ def _run_subject_strict(ctx, idx, s, case, collect):
         # 3. identifiers generated by the library are unique per call (same arguments, second call)
         if idx % 3 == 0:
             try:
+                # (baseline taken now: writing `obj` above may have resolved ambiguous VRs - `US or SS` - inside nested data sets
+                # the result shares with the arguments; that is pydicom's writer, not a construction)
+                mid = {k: snap(v) for k, v in s['inputs'].items()}
                 obj2 = s['call'](**s['inputs'])
                 g1, g2 = (_generated_uids(o, s['inputs'], s['given_uids']) for o in (obj, obj2))
                 both = set(g1) & set(g2)
@@ -780,6 +845,17 @@ def _run_subject_strict(ctx, idx, s, case, collect):
                     u = sorted(both)[0]
                     ctx.fail(case, f'identifier generated in two calls is the same: {g1[u]} = {u}', site=s['name'] + '/uid')
                 ctx.hist('generated_uids_per_call', len(g1))
+                # the arguments served two constructions: still untouched, and the second result is the first one again
+                # (identifiers and dates / times apart) - nothing of the first call lives on in the arguments or the library
+                for k in mid:
+                    d = snap_diff(mid[k], snap(s['inputs'][k]), k)
+                    if d:
+                        ctx.fail(case, f'argument altered by the second construction from the same arguments: {d}',
+                                 site=s['name'] + '/inputs')
+                d = elem_diff(obj, obj2, 'second', loose=True)
+                if d:
+                    ctx.fail(case, f'second construction from the same arguments differs: {d}', site=s['name'] + '/second-call')
+                ctx.hist('second_construction', 'compared')
             except Exception as e:  # noqa: BLE001
                 ctx.fail(case, f'second call with the same (unaltered) arguments failed: {type(e).__name__}: {str(e)[:150]}',
                          site=s['name'] + '/second-call')
